@@ -253,6 +253,14 @@ func runBubble(t *testing.T, h Harness, prop, tier string, sc any, cfg simrt.Con
 				x.Inconclusive = "tape overflow"
 			}
 			res.Leaked = r.Teardown()
+			if res.Leaked > 0 && os.Getenv("VERIF_DEBUG_LEAK") != "" {
+				fmt.Fprintf(os.Stderr, "LEAK seed=%d: %v\n", seed, r.Unfinished())
+				if os.Getenv("VERIF_DEBUG_LEAK") == "stacks" {
+					buf := make([]byte, 1<<22)
+					fmt.Fprintf(os.Stderr, "%s\n", buf[:runtime.Stack(buf, true)])
+					os.Exit(3)
+				}
+			}
 			for k, v := range r.Probes {
 				x.Probes[k] += v
 			}
